@@ -56,6 +56,14 @@ CHECKS = {
             "runtime monitoring of schedules: differential runs across io-cache depths and seeded schedule perturbation (source hooks), ThreadSanitizer/ASan on io-ring and hostile scan workloads, offline checker of the io.c hook event trace (slot ownership, exactly-once, order), watchdog + SIGINT for termination",
             "From one restored image sync/scrub are run single-threaded and with 3..128 ring slots under seeded yields/sleeps injected between critical sections; parity bytes, decoded state and error sets must equal the single-thread reference. Every run's hook trace (one atomic sequence counter) is checked for overlapping slot ownership, positions processed exactly once and in order, and worker silence after join. TSan (real SIMD and portable-C builds) and ASan watch the same workloads plus a scan workload built to hit the copy-detection window. Evidence reports events, hand-overs and distinct interleavings seen.",
             "Interleavings are sampled, not enumerated: the exhaustive exploration of a ring-protocol model named in the property's observe_at is model checking and is not done (DESIGN.md section 6). Termination means 'ended within the watchdog on every run'. State comparison ignores free-space counters and inode numbers."),
+    "C16": ("exploration",
+            "differential monitoring against recorded observations of the reference version: vendored arrays written by the pristine pinned tree are checked and repaired by the current tree; digests, CRCs and parity of stored vectors are recomputed through harnesses linked with the current objects and compared with stored values and frozen reference sources",
+            "12 vendored reference arrays (both hash kinds, hash sizes 16/8/4/2, 1..6 parities and z, split layouts, formats 2 and 3, migration in progress, fragmented allocation): check must be clean and fix must reproduce the stored bytes/mtimes/links after removing device subsets (all subsets of size <= N in thorough). 8 seeds x lengths 0..1100 x 2 hash kinds, CRC-32C table and SSE4.2 variants for lengths 0..1100, 180 parity vectors over nd 1..251, np 1..6, both modes.",
+            "Reference material generated once from the pristine pinned tree before any fix commit. 'All future versions' is decided one tree at a time."),
+    "C17": ("exploration",
+            "runtime monitor with a twin array: the same history is applied to a single-file and a split configuration; split files cut at the independently decoded recorded sizes are compared byte for byte with the single-file parity, plus alignment/size-history invariants, the parity oracle and loss-of-a-split recovery",
+            "Twin histories with growth and shrinkage across split boundaries, 2..8 splits per level, unaligned per-file limits hit mid-growth, loss of a split or a disk followed by fix, and removal of unused trailing splits from the configuration. After every sync: recorded split sizes block aligned, concatenation equals the single-file parity on every used stripe, only the last used split changes size, C06 oracle holds on the split array.",
+            "Limits come from the deterministic --test-parity-limit function. Stripes that hold no file block are excluded from the byte comparison (their parity is unspecified). Open finding F18 is reported as KNOWN-FINDING."),
     "C20": ("exploration",
             "runtime monitor: every derived view (list tags and stdout, dup, status, pool tree) compared with the independently decoded content file and the harness's byte-level model; escaping inverted; per-tag line counts as a forged-line detector",
             "Arrays with hostile and tag-lookalike names, duplicate groups across disks, zero sub-second stamps, pre-existing pool contents, with and without a share prefix. list/dup/status log tags and stdout are parsed back (esc_tag / shell escaping inverted) and must give exactly the recorded names, sizes, links; dup pairs must induce the content-equality partition; the pool dir must hold exactly one resolving link per recorded name with stale links and empty dirs gone and foreign files kept.",
